@@ -27,6 +27,7 @@ STR_SWAP = {'before': 'after', 'after': 'always', 'always': 'before', 'states': 
             'on exit': 'on entry', 'initial': 'memory', 'memory': 'initial', 'given': 'when', 'when': 'given', 'then': 'when', 'guard': 'action', 'target': 'event',
             'preconditions': 'postconditions', 'postconditions': 'invariants', 'invariants': 'preconditions'}
 SKIP_FUNCS = {'__repr__', '__str__', 'cli', 'main'}
+SECOND = os.environ.get('MUT_SECOND') == '1'      # second family of operators: dropped keyword, swapped arguments, swapped adjacent statements
 
 
 def parents(tree):
@@ -77,6 +78,24 @@ def mutants_of(path):
             continue
         if isinstance(n, ast.Expr) and isinstance(n.value, ast.Constant):
             continue
+        if SECOND and isinstance(n, ast.Call) and n.keywords and not skipped(n):
+            for i, kw in enumerate(n.keywords):
+                if kw.arg is not None:
+                    add(n, 'drop-kwarg', 'keyword %s dropped from %s' % (kw.arg, ast.unparse(n.func)[:30]), ('DROP_KW', i))
+        if SECOND and isinstance(n, ast.Call) and len(n.args) == 2 and not n.keywords and all(isinstance(a, (ast.Name, ast.Attribute)) for a in n.args) \
+                and ast.unparse(n.args[0]) != ast.unparse(n.args[1]):
+            add(n, 'arg-swap', 'arguments swapped in %s' % ast.unparse(n.func)[:30], 'SWAP_ARGS')
+        if SECOND and isinstance(n, ast.stmt):
+            p_ = getattr(n, '_p', None)
+            for fld in ('body', 'orelse', 'finalbody'):
+                blk = getattr(p_, fld, None)
+                if isinstance(blk, list) and n in blk:
+                    i = blk.index(n)
+                    simple = (ast.Expr, ast.Assign, ast.AugAssign)
+                    if i + 1 < len(blk) and isinstance(n, simple) and isinstance(blk[i + 1], simple) and not (isinstance(n, ast.Expr) and isinstance(n.value, ast.Constant)):
+                        add(n, 'swap-next', 'swapped with the next statement: %s <-> %s' % (ast.unparse(n)[:30].replace('\n', ' '), ast.unparse(blk[i + 1])[:30].replace('\n', ' ')), 'SWAP_NEXT')
+        if SECOND:
+            continue
         if isinstance(n, ast.Compare) and len(n.ops) == 1 and type(n.ops[0]) in CMP:
             add(n, 'cmp', '%s -> %s' % (type(n.ops[0]).__name__, CMP[type(n.ops[0])].__name__), lambda m: setattr(m, 'ops', [CMP[type(m.ops[0])]()]))
         if isinstance(n, ast.BoolOp):
@@ -115,7 +134,17 @@ def apply(path, idx, fn):
     nodes = list(ast.walk(tree))
     m = nodes[idx]
     p = m._p
-    if fn in ('REPLACE_OPERAND', 'REPLACE_ARG0', 'REPLACE_RECV', 'SORTED_TO_LIST', 'DELETE'):
+    if isinstance(fn, tuple) and fn[0] == 'DROP_KW':
+        del m.keywords[fn[1]]
+    elif fn == 'SWAP_ARGS':
+        m.args = [m.args[1], m.args[0]]
+    elif fn == 'SWAP_NEXT':
+        for fld in ('body', 'orelse', 'finalbody'):
+            blk = getattr(p, fld, None)
+            if isinstance(blk, list) and m in blk:
+                i = blk.index(m)
+                blk[i], blk[i + 1] = blk[i + 1], blk[i]
+    elif fn in ('REPLACE_OPERAND', 'REPLACE_ARG0', 'REPLACE_RECV', 'SORTED_TO_LIST', 'DELETE'):
         if fn == 'REPLACE_OPERAND':
             new = m.operand
         elif fn == 'REPLACE_ARG0':
